@@ -90,6 +90,32 @@ def oracle(case):
             if g.shape != want.shape or not np.allclose(g, want, rtol=1e-14, atol=0, equal_nan=True):
                 return ({"cls": cname, "clause": "kinds", "method": m, "form": "int"},
                         "%s(%s).%s(x) with x = %r as %s gives %r, as floats %r" % (cname, th, m, xi.tolist(), form, g.tolist(), want.tolist()))
+    # ---- array-valued explicit parameters (what a conditional distribution passes): element i uses the i-th parameter values
+    import random as _random
+    r_ = _random.Random(int(abs(hash(repr(sorted(th.items())))) % (2 ** 31)))
+    ths = [dict(th)] + [{q: (v * r_.uniform(0.8, 1.25) if v != 0 else 0.0) for q, v in th.items()} for _ in range(3)]
+    xq = np.array([float(Cls(**t).icdf(0.4 + 0.1 * i)) for i, t in enumerate(ths)])
+    for mixed in (False, True):
+        if mixed and len(ps) < 2:
+            continue
+        scalar_p = ps[-1] if mixed else None       # one parameter stays a scalar, the others are vectors
+        if mixed:
+            ths_m = [dict(t, **{scalar_p: th[scalar_p]}) for t in ths]
+            xq_m = np.array([float(Cls(**t).icdf(0.4 + 0.1 * i)) for i, t in enumerate(ths_m)])
+        else:
+            ths_m, xq_m = ths, xq
+        kw = {q: (th[q] if q == scalar_p else np.array([t[q] for t in ths_m])) for q in ps}
+        for m in ("cdf", "pdf", "icdf"):
+            arg = xq_m if m != "icdf" else np.array([0.4, 0.5, 0.6, 0.7])
+            want = np.array([float(getattr(Cls(**t), m)(float(a))) for t, a in zip(ths_m, arg)])
+            try:
+                got = np.asarray(getattr(base, m)(arg, **kw), dtype=float)
+            except Exception as e:  # noqa
+                return ({"cls": cname, "clause": "override", "method": m, "form": "vector-parameters", "exc": type(e).__name__},
+                        "%s.%s(x, %s) with vector-valued parameters raised %s: %s" % (cname, m, {q: np.asarray(v).tolist() for q, v in kw.items()}, type(e).__name__, str(e)[:80]))
+            if got.shape != want.shape or not np.allclose(got, want, rtol=1e-12, atol=0, equal_nan=True):
+                return ({"cls": cname, "clause": "override", "method": m, "form": "vector-parameters"},
+                        "%s.%s(x=%r, %s) = %r but instances constructed element by element give %r" % (cname, m, arg.tolist(), {q: np.asarray(v).tolist() for q, v in kw.items()}, got.tolist(), want.tolist()))
     # ---- documented formula
     doc = D.doc_cdf(cname, th, x)
     if doc is not None and not np.allclose(c_arr, doc, **tol):
